@@ -92,7 +92,9 @@ func (e *Engine) DetachHandler(prefix enc.Name) error {
 	if n == nil {
 		return ndn.ErrInvalidValue{Item: "prefix", Value: prefix}
 	}
-	n.Delete()
+	// Only this prefix loses its handler: handlers on longer and shorter prefixes stay.
+	n.SetValue(nil)
+	n.DeleteIf(func(h fibEntry) bool { return h == nil })
 	return nil
 }
 
@@ -332,7 +334,11 @@ func (e *Engine) onNack(name enc.Name, reason uint64) {
 			e.log.Fatalf("PIT has empty entry. This should not happen. Please check the implementation.")
 		}
 	}
-	n.Delete()
+	// Interests pending on longer names stay in the PIT
+	n.SetValue(nil)
+	n.DeleteIf(func(lst []*pendInt) bool {
+		return len(lst) == 0
+	})
 }
 
 func (e *Engine) onError(err error) error {
